@@ -135,7 +135,7 @@ class Path:
 
 
 class Obligation:
-    __slots__ = ('name', 'pc', 'goal', 'kind', 'path', 'line', 'status', 'time', 'model', 'solver', 'note', 'inputs', 'smt2')
+    __slots__ = ('name', 'pc', 'goal', 'kind', 'path', 'line', 'status', 'time', 'model', 'solver', 'note', 'inputs', 'smt2', 'n_axioms')
 
     def __init__(self, name, pc, goal, kind='post', path='', line=0, inputs=None):
         self.name = name
@@ -151,6 +151,7 @@ class Obligation:
         self.note = ''
         self.inputs = inputs or {}
         self.smt2 = None
+        self.n_axioms = 0
 
 
 class Frame:
@@ -496,7 +497,9 @@ class Interp:
             o.solver = 'simplifier'
             self.obligations.append(o)
             return
-        self.obligations.append(Obligation(name, self.axioms + self.pc, g, kind, self.pathname(), line, dict(self.inputs)))
+        o = Obligation(name, self.axioms + self.pc, g, kind, self.pathname(), line, dict(self.inputs))
+        o.n_axioms = len(self.axioms)
+        self.obligations.append(o)
 
     def pathname(self):
         import hashlib
